@@ -1,6 +1,6 @@
 SPECIFICATION Spec
 CONSTANTS
-  Families = {"ne"}
+  Families = {"fo", "st", "va", "ch", "ne", "dy", "cd"}
   DynLen = 3
   CdLen = 2
 INVARIANT NoResidual
